@@ -26,6 +26,37 @@ class ScaledRange(graphs.RangeEdge):
         return np.array([self.factor * np.linalg.norm(np.array(self.vertices[0].pose.position) - np.array(self.vertices[1].pose.position)) - self.estimate])
 
 
+def near_pi_headings(run):
+    """Off the lattice (L1): SE(2) vertices whose HEADING is within 1e-6 of +-pi (the perturbed heading of the forward difference wraps around)
+    while the relative-pose error is nowhere near its own wrap point.  Reference: the analytic Jacobians of the built-in odometry edge, which has
+    the same error function (they are decided by C01)."""
+    from graphslam.pose.se2 import PoseSE2
+    from graphslam.vertex import Vertex
+    rnd = random.Random(run.seed + 1601)
+    n = 0
+    for th1 in (math.pi - 5e-7, -math.pi + 3e-7, math.pi - 1e-9, math.nextafter(math.pi, 0.0), 3.0):
+        for th2 in (0.4, math.pi - 2e-7, -2.0):
+            v1 = Vertex(1, PoseSE2([rnd.uniform(-5, 5), rnd.uniform(-5, 5)], th1))
+            v2 = Vertex(2, PoseSE2([rnd.uniform(-5, 5), rnd.uniform(-5, 5)], th2))
+            z = (v2.pose - v1.pose) + PoseSE2([0.05, -0.02], 0.1)
+            info = np.array([[2.0, 0.5, 0.0], [0.5, 3.0, 0.25], [0.0, 0.25, 1.0]])
+            num = graphs.RelPoseEdge([1, 2], info, z, [v1, v2])
+            ana = EdgeOdometry([1, 2], info, z, [v1, v2])
+            before = [np.array(v.pose) for v in (v1, v2)]
+            try:
+                Jn, Ja = num.calc_jacobians(), ana.calc_jacobians()
+            except Exception as ex:  # noqa
+                run.violation(dict(part='jacobian', family='relpose', near_pi_heading=True, outcome='raised'), 'calc_jacobians raised %r' % (ex,), dict(th1=th1, th2=th2))
+                continue
+            n += 1
+            run.count(key=('near-pi-heading', th1, th2), nontrivial=True)
+            dv = max(float(np.max(np.abs(np.asarray(a, dtype=float) - np.asarray(b, dtype=float)))) for a, b in zip(Jn, Ja))
+            if dv > 2e-5 * 6 or not all(np.array_equal(np.array(v.pose), b) for v, b in zip((v1, v2), before)):
+                run.violation(dict(part='jacobian', family='relpose', near_pi_heading=True), 'vertex headings %r / %r: numerical Jacobian deviates from the analytic one of the same error function by %.3g (or a pose was not restored)' % (
+                    th1, th2, dv), dict(th1=th1, th2=th2))
+    run.notes['near_pi_heading_cases'] = n
+
+
 def gen(tier, seed):
     rnd = random.Random(seed * 733 + 19)
     thorough = tier == 'thorough'
@@ -203,6 +234,7 @@ def check(run):
             r = c03.step_compare(run, c, obs_list, dict(part='step', kind=c['verts'][0]['k']))
             steps += r is not None
     run.notes['custom_edges_compared'] = fam
+    near_pi_headings(run)
     run.notes['gauss_newton_steps_compared'] = steps
     if min(fam.values()) == 0:
         raise RuntimeError('vacuity guard: %r' % fam)
